@@ -378,6 +378,19 @@ func c12Serve(c *gen.Ctx, reqs []c12Req, stderr, traced bool) []c12Obs {
 		if stderr {
 			o.Lines, obs.Lines = c12ReadStderr(batch, o.Stderr)
 			c.E.Add("stderr-lines-read-by-the-real-runner", len(obs.Lines))
+			if name := c12Name(r); !c12Attributable(name) {
+				// a name the runner's "name: message" reading cannot carry: only what the SERVER does is
+				// judged - every line it writes starts with the name and ": "
+				o.Lines = nil
+				for _, raw := range obs.Lines {
+					if msg, ok := strings.CutPrefix(raw[0], name+": "); ok && name != "" {
+						o.Lines = append(o.Lines, rs.VerifC12Line{Prefixed: true, Prefix: name, Msg: msg})
+					} else {
+						o.Lines = append(o.Lines, rs.VerifC12Line{Msg: raw[0]})
+					}
+				}
+				c.E.Count("checks:name-the-runner-cannot-carry")
+			}
 		}
 		obs.Fb, obs.Named = c12Classes(c, o.Lines, c12Name(r))
 		if o.TimeoutMs != nil {
@@ -765,6 +778,9 @@ func runC12(c *gen.Ctx) error {
 	}
 	for i := 0; i < nErr; i++ {
 		batchNames := []string{c12OddName(r, i), c12OddName(r, i+1), gen.Pick(r, names)}
+		if i%5 == 4 { // names with ': ' inside, white space in front or at the end
+			batchNames[0] = c12HardNames[(i/5)%len(c12HardNames)]
+		}
 		n := r.Range(1, 4)
 		var reqs []c12Req
 		for k := 0; k < n; k++ {
@@ -812,6 +828,15 @@ var c12OddNames = []string{
 	"quote\"d", "back\\slash", "\\n", "{brace}", "$dollar ${x}", "`tick`", "<a&b>", "tab\tinside", "two  spaces", "é%ü", "名前/%s", "#1", "*", "?", "[x]",
 	"referenceserver", "referenceserver/x", "-", "0", strings.Repeat("long%", 40),
 }
+
+// c12Attributable: the runner's reading of a stderr line ("trim; split at the first ': '") gives
+// back this test case name.
+func c12Attributable(name string) bool {
+	return !strings.Contains(name, ": ") && !strings.ContainsAny(name, "\n\r") && strings.TrimLeft(name, " \t\n\v\f\r") == name
+}
+
+// c12HardNames: names with the separator inside, white space in front or at the end.
+var c12HardNames = []string{"a: b", "Suite: case/1", "x: y: z", ": ", "a: ", " leading", "\tleading tab", "trailing ", "trailing  ", "both ", "trail%s ", "100% ", "q: 100%d", "é: ü ", "ends with colon:", "colon:: twice"}
 
 func c12OddName(r *gen.Rand, i int) string {
 	if i%3 == 0 {
